@@ -42,3 +42,14 @@ for o in range(nops):
         n = t[i]; i += 1; qs = [vec() for _ in range(n)]; nodes = zs(); docs = zs(); k, thr, agg, cut, np_ = t[i:i+5]; i += 5
         e = t[i]; i += 1; n = t[i]; i += 1; res = [(t[i+2*j], f(t[i+2*j+1])) for j in range(n)]; i += 2*n
         print(o, 'search', qs, 'nodes', nodes, 'docs', docs, 'k', k, 'thr', f(thr), 'agg', agg, 'cut', cut, 'np', np_, '->', e, res)
+    elif op == 7:
+        bm = zs(); b = zs(); n = t[i]; i += 1; print(o, 'write', len(b), 'bytes ->', n)
+    elif op == 8:
+        b = zs(); e = t[i]; n = t[i+1]; i += 2; print(o, 'reload', len(b), 'bytes ->', e, n)
+    elif op == 9:
+        n = t[i]; i += 1; a = [(t[i+2*j], f(t[i+2*j+1])) for j in range(n)]; i += 2*n
+        e = t[i]; i += 1
+        n = t[i]; i += 1; b = [(t[i+2*j], f(t[i+2*j+1])) for j in range(n)]; i += 2*n
+        print(o, 'node-law', a, '->', e, b)
+    else:
+        print(o, 'UNKNOWN op', op); break
